@@ -316,7 +316,7 @@ def pure(prop):
 
 
 def check_pure(prop, tier, seed, replay, harness, mode, gen_lines, rule, assumptions, std='c++17', nontrivial=None,
-               post=None, extra_trusted=None):
+               post=None, extra_trusted=None, prepare=None):
     """properties decided by a pure function: one input line -> one output line on both sides."""
     t0 = time.time()
     violations = []
@@ -337,8 +337,16 @@ def check_pure(prop, tier, seed, replay, harness, mode, gen_lines, rule, assumpt
         if not ok:
             path = vlib.write_replay(prop, tier, seed, 'leanchecker', ['verdict tie-broken', 'broken leanchecker'], out.split('\n'))
             violations.append((path, True))
+    rng = random.Random('%s-%s' % (seed, prop))
+    generated = None
     try:
-        hx = vlib.build_simple_harness(harness, std=std)
+        if prepare is not None and not replay:
+            generated = prepare(tier, rng)      # (lines, exe) — a harness generated for these inputs
+            hx = generated[1]
+        elif prepare is None:
+            hx = vlib.build_simple_harness(harness, std=std)
+        else:
+            hx = None
     except vlib.BuildError as e:
         path = vlib.write_replay(prop, tier, seed, 'harness-build',
                                  ['verdict tie-broken', 'broken correspondence h_%s (does not compile against /repo)' % harness],
@@ -347,15 +355,26 @@ def check_pure(prop, tier, seed, replay, harness, mode, gen_lines, rule, assumpt
         return 1
     if replay:
         lines = [l.rstrip('\n') for l in open(replay) if l.strip() and not l.startswith('#')]
+        if prepare is not None:
+            generated = prepare(tier, rng, lines)
+            hx = generated[1]
+            lines = generated[0]
+    elif generated is not None:
+        lines = generated[0]
     else:
-        rng = random.Random('%s-%s' % (seed, prop))
         lines = []
         for name, ls in load_corpus(prop):
             lines.extend(ls)
         lines.extend(gen_lines(tier, rng))
     t1 = time.time()
     mo, merr = vlib.run_lines([tmodel, mode], lines)
-    io, ierr = vlib.run_lines([hx], lines)
+    if prepare is not None:
+        io, ierr = vlib.run_noinput(hx)
+        if len(io) != len(lines):
+            ierr.append(('<whole run>', 'generated harness printed %d results for %d inputs' % (len(io), len(lines))))
+            io = io + ['<missing>'] * (len(lines) - len(io))
+    else:
+        io, ierr = vlib.run_lines([hx], lines)
     log('[%s] %d inputs, both sides run in %.1fs' % (prop, len(lines), time.time() - t1))
     bad = []
     hist = collections.Counter()
@@ -421,6 +440,39 @@ def check_c11(tier, seed, replay):
         nontrivial=lambda l, b: not l.endswith(' R') or ' E R' not in l,
         extra_trusted=['std::equal / std::mismatch / std::find_if / std::all_of of libstdc++ are modelled by their '
                        'specification (Model/Range.lean equal4, mismatch, findIdx?, all)'])
+
+
+@pure('C10')
+def check_c10(tier, seed, replay):
+    import matchergen
+    if replay:
+        # the harness of C10 is generated from (seed, tier): re-run the check that produced the replay
+        for l in open(replay):
+            if l.startswith('# seed '):
+                seed = l.split()[2]
+            if l.startswith('# tier '):
+                tier = l.split()[2]
+
+    def prepare(tier, rng, replay_lines=None):
+        if replay_lines is not None:
+            # a replay is a list of `tree | value | oracle` lines: rebuild a harness with exactly those trees
+            raise vlib.BuildError('replay of C10 needs the generating seed: re-run the check with VERIF_SEED from the replay header')
+        n = 150 if tier == 'quick' else 1500
+        files, lines, trees = matchergen.generate(rng, n, 8 if tier == 'quick' else 16)
+        exe = vlib.build_generated_harness('matcher', files)
+        return lines, exe
+    return check_pure(
+        'C10', tier, seed, None, 'matcher', 'matcher', None,
+        rule='seeded random matcher expressions (depth <= 3; eq/ne/lt/le/gt/ge duck-typed and explicitly typed, !, *, any_of/all_of/'
+             'none_of with 1-3 operands incl. plain values, MEMBER_IS, re with/without icase, _ and ANY(T)) compiled against the real '
+             'headers and evaluated on the whole value domain of their type (ints -2..3, 4 strings, 5 C strings incl. null, raw/unique/'
+             'shared pointers incl. null, 9 structs); a fixed corpus of boundary trees first. distinct = distinct (tree, value) lines',
+        assumptions=['std::regex_search is an oracle: its answer is computed by Python re on an ECMAScript-compatible pattern subset and '
+                     'passed to the model; what is compared is trompeloeil\'s glue (null handling, string_helper, flag routing)',
+                     '`_` cannot be used as an operand of !, any_of/all_of/none_of or MEMBER_IS (does not compile upstream: no operator<<); '
+                     'it is exercised at top level only'],
+        prepare=prepare,
+        extra_trusted=['Python re as regex oracle on the pattern subset used'])
 
 
 def main():
